@@ -66,6 +66,19 @@ def _case(draw):
     case = {"seq": spec, "n": n, "bar": None}
     if as_bar:
         case["bar"] = {"num": num, "den": den, "key": draw(st.one_of(st.none(), st.sampled_from(gens.KEYS)))}
+    elif draw(st.integers(0, 3)) == 0:
+        # a history on one object: transpose, then more material arrives (concatenate / in-place pitch edit), then the
+        # transposition under test
+        pre = {"n": draw(st.sampled_from([1, -1, 2, -2, 5, -7, 12, -12, 0])), "how": draw(st.sampled_from(["concat", "edit"]))}
+        if pre["how"] == "concat":
+            pool2 = draw(st.lists(st.sampled_from(pools[draw(st.sampled_from(["low", "high", "both", "mid"]))]), min_size=1,
+                                  max_size=3, unique=True))
+            pre["extra"] = {"notes": draw(gens.wellformed_notes(channels=(0, 1), pitches=pool2, max_notes=3, max_len=30,
+                                                                 max_gap=10, start_max=10)),
+                            "meta": [], "route": draw(st.sampled_from(["rel", "abs_sorted"])), "pad": None}
+        else:
+            pre["to"] = draw(st.sampled_from([21, 22, 107, 108, 30, 100]))
+        case["pre"] = pre
     return case
 
 
@@ -95,6 +108,38 @@ def check(case):
     if an0 or sorted(notes0) != sorted(built[3]):
         out.inconclusive = "bar-construction-deviates"
         return out
+    pre = case.get("pre")
+    if pre and not bar:
+        out.label("history:" + pre["how"])
+        try:
+            flag0 = seq.transpose(pre["n"])
+        except Exception as e:
+            out.fail("transpose-raises", f"first transpose({pre['n']}): {type(e).__name__}: {e}")
+            return out
+        want0 = any(wrap(x[1] + pre["n"]) != x[1] + pre["n"] for x in notes0)
+        if flag0 is not want0:
+            out.fail("flag", f"first transpose({pre['n']}) returned {flag0!r}, model says {want0}")
+            return out
+        try:
+            if pre["how"] == "concat":
+                extra = build.sequence(pre["extra"])
+                seq.concatenate([extra])
+            else:
+                # move every note of the lowest pitch of channel 0 to a pitch no note of that channel uses
+                cur = sorted({m.note for m in seq.rel._messages if m.note is not None and m.channel == 0})
+                used = {m.note for m in seq.rel._messages if m.note is not None}
+                if cur and pre["to"] not in used:
+                    for m in seq.messages_rel():
+                        if m.channel == 0 and m.note == cur[0]:
+                            m.note = pre["to"]
+            ev0, dur0 = O.seq_events(seq)
+            notes0, an0 = O.notes(ev0)
+        except Exception as e:
+            out.inconclusive = f"history-construction-raised:{type(e).__name__}"
+            return out
+        if an0 or O.overlaps(notes0):
+            out.inconclusive = "history-construction-deviates"
+            return out
     keys0 = [e for e in ev0 if e[1] == O.KS]
     pitches0 = [x[1] for x in notes0]
     expect_flag = any(wrap(p + n) != p + n for p in pitches0)
